@@ -40,6 +40,9 @@ CASES = {
     "uniform_pm1": (tfd.Uniform, {"low": -1.0, "high": 1.0}, 0.3),
     # the upper bound is a *weak* variable (2 * root): it is only as current as its last update
     "uniform_weakhi": (tfd.Uniform, {"low": 0.0, "high": ("weak", "hi", 1.0)}, 1.0),
+    # both bounds are calculated, the lower one *from the upper one* (low = high / 4, high = 2 * root), and the deeper
+    # one is listed first among the distribution's inputs
+    "uniform_diamond": (tfd.Uniform, {"low": ("ratio", "lo", "high", 0.25), "high": ("weak", "hi", 1.0)}, 1.5),
 }
 # bijector choices: (spec name, mode, maker(params_vars) -> (args for transform, fn(param values) -> TFP bijector))
 BIJ = {
@@ -72,6 +75,7 @@ COMPAT = {
     "lognormal": ["exp_instance", "default"],
     "uniform_pm1": ["algsig_instance"],
     "uniform_weakhi": ["default", "gb_default", "auto"],
+    "uniform_diamond": ["default", "auto"],
 }
 
 
@@ -89,7 +93,10 @@ def one_trace(rng, case, bname, parameter=True, observed=False, via_copy=False, 
     pvars, pvals = {}, {}
     kw = {}
     pfactor = {}
+    ratios = {}
     for k, v in pspec.items():
+        if isinstance(v, tuple) and v[0] == "ratio":
+            continue
         if isinstance(v, tuple) and v[0] == "weak":
             root = lsl.Var(jnp.float32(v[2]), name=v[1] + "_root")
             kw[k] = lsl.Var(lsl.Calc(lambda r: 2.0 * r, root), name=v[1])
@@ -101,6 +108,19 @@ def one_trace(rng, case, bname, parameter=True, observed=False, via_copy=False, 
         else:
             kw[k] = v
             pvals[k] = float(v)
+    for k, v in pspec.items():
+        if isinstance(v, tuple) and v[0] == "ratio":
+            kw[k] = lsl.Var(lsl.Calc(lambda h, f=v[3]: f * h, kw[v[2]]), name=v[1])
+            ratios[k] = (v[2], v[3])
+
+    class _Derived(dict):
+        """parameter values by keyword; the calculated ratios follow the entries they are calculated from"""
+        def __getitem__(self, k):
+            if k in ratios:
+                return ratios[k][1] * dict.__getitem__(self, ratios[k][0])
+            return dict.__getitem__(self, k)
+    pvals = _Derived(pvals)
+    kw = {k: kw[k] for k in pspec}          # keyword order as listed in the case
     bvar = lsl.Var(jnp.float32(2.0), name="bv")
     pv_for_bij = {"__bv": bvar}
     x = lsl.Var(jnp.asarray(x0, jnp.float32), lsl.Dist(dist_cls, **kw), name="x")
@@ -333,7 +353,8 @@ def all_traces(rng, reps=1):
                 # distribution / bijector parameters are variables: the same on a deep copy of the model
                 out.append(one_trace(rng, case, bname, via_copy=True))
     # a parameter of the distribution changed between graph creation and the transformation
-    for case, bname in (("uniform_weakhi", "gb_default"), ("uniform_weakhi", "default"), ("uniform_weakhi", "auto"),
+    for case, bname in (("uniform_diamond", "default"), ("uniform_diamond", "auto"),
+                        ("uniform_weakhi", "gb_default"), ("uniform_weakhi", "default"), ("uniform_weakhi", "auto"),
                         ("uniform_varhi", "gb_default"), ("uniform_varhi", "default"), ("gamma_varparam", "gb_default"),
                         ("invgamma", "gb_default"), ("gamma_varparam", "exp_instance")):
         out.append(one_trace(rng, case, bname, stale_before=True))
